@@ -316,6 +316,11 @@ pub struct CaseSpec {
     /// name built by the same number of add_rule calls (the same rule names carrying the next
     /// rule's condition, actions and salience, enabled flags inverted), then the real one
     pub engine_reused: bool,
+    /// flat facts whose NAME is a dotted path of `facts` (what `Facts::set("F.i0", v)` stores),
+    /// each with a value different from the object field's. A reference `F.i0` means the field of
+    /// the object fact `F` when there is one (Facts::get_nested; the flat name is the fallback),
+    /// so these must change no verdict.
+    pub flat_decoys: BTreeMap<String, Lit>,
 }
 
 impl CaseSpec {
@@ -335,6 +340,7 @@ impl CaseSpec {
             "schedules": self.schedules,
             "engine_first_ran_a_decoy_knowledge_base": self.engine_reused,
             "via_grl": self.via_grl,
+            "flat_facts_named_like_a_dotted_path": self.flat_decoys.iter().map(|(k, v)| (k.clone(), v.to_json())).collect::<serde_json::Map<String, Json>>(),
         })
     }
     pub fn from_json(j: &Json) -> Option<CaseSpec> {
@@ -368,6 +374,10 @@ impl CaseSpec {
             schedules: j["schedules"].as_u64()? as u32,
             engine_reused: j["engine_first_ran_a_decoy_knowledge_base"].as_bool().unwrap_or(false),
             via_grl: j["via_grl"].as_bool().unwrap_or(false),
+            flat_decoys: j["flat_facts_named_like_a_dotted_path"]
+                .as_object()
+                .map(|o| o.iter().filter_map(|(k, v)| Some((k.clone(), Lit::from_json(v)?))).collect())
+                .unwrap_or_default(),
         })
     }
     pub fn grl_text(&self) -> String {
@@ -487,7 +497,7 @@ pub fn gen_deep_case(rng: &mut Rng, schedules: u32) -> CaseSpec {
         }
         rules.push(RuleSpec { name: format!("R{:02}", i), salience: 5, enabled: true, cond: c, actions });
     }
-    CaseSpec { rules, facts, max_threads: *rng.pick(&[1usize, 2, 3, 4, 8, 16, 16]), min_rules_per_thread: 1 + rng.below(2), schedules, via_grl: false, engine_reused: false }
+    CaseSpec { rules, facts, max_threads: *rng.pick(&[1usize, 2, 3, 4, 8, 16, 16]), min_rules_per_thread: 1 + rng.below(2), schedules, via_grl: false, engine_reused: false, flat_decoys: BTreeMap::new() }
 }
 
 /// Random case: `n_rules` rules with salience ties. `small` = Miri-sized (no GRL text, shallow).
@@ -531,7 +541,22 @@ pub fn gen_case(rng: &mut Rng, n_rules: usize, max_threads: usize, min_rules: us
         rules.push(RuleSpec { name, salience, enabled, cond: gen_cond(rng, depth, allow_not), actions });
     }
     let engine_reused = rng.chance(1, 4);
-    CaseSpec { rules, facts: gen_facts(rng), max_threads, min_rules_per_thread: min_rules, schedules, via_grl, engine_reused }
+    let facts = gen_facts(rng);
+    let mut flat_decoys = BTreeMap::new();
+    if rng.chance(1, 6) {
+        for (k, v) in &facts {
+            if k.contains('.') && rng.chance(2, 3) {
+                let other = match v {
+                    Lit::I(i) => Lit::I(if rng.bool() { i + 1 + rng.range(0, 9) } else { i - 1 - rng.range(0, 9) }),
+                    Lit::S(w) => Lit::S(WORDS.iter().find(|x| **x != w.as_str()).unwrap_or(&"zz").to_string()),
+                    Lit::B(b) => Lit::B(!b),
+                    o => o.clone(),
+                };
+                flat_decoys.insert(k.clone(), other);
+            }
+        }
+    }
+    CaseSpec { rules, facts, max_threads, min_rules_per_thread: min_rules, schedules, via_grl, engine_reused, flat_decoys }
 }
 
 // ------------------------------------------------------------------------------------------------
@@ -600,6 +625,9 @@ pub fn build_facts(c: &CaseSpec) -> Facts {
     }
     for (o, fields) in objects {
         let _ = facts.add_value(&o, Facts::create_object(fields));
+    }
+    for (k, v) in &c.flat_decoys {
+        facts.set(k, v.value());
     }
     facts
 }
